@@ -606,3 +606,130 @@ Example dhcp4_rt_ex :
             len p = 300%nat /\
             map fst (emission (set_opt 53 [5] options) [6; 3; 1] [12; 53]) = [6; 1; 3; 12; 53].
 Proof. cbn zeta. eexists. split; [vm_compute; reflexivity|]. split; vm_compute; reflexivity. Qed.
+
+(* ---------------------------------------------------------------- *)
+(* fixed fields: the reference decoder's record and the library getters *)
+Definition dhcp_fixed_of (op hl : N) (x4 : bytes) (fl : N) (c4 y4 ch6 : bytes) : bytes :=
+  [op; 1; hl; 0] ++ x4 ++ [0; 0; fl; 0] ++ c4 ++ y4 ++ [0; 0; 0; 0; 0; 0; 0; 0] ++ ch6 ++ repeat 0 202 ++ COOKIE.
+
+Lemma ref_dhcp_of_pieces op hl x4 fl c4 y4 ch6 area em pad :
+  length x4 = 4%nat -> length c4 = 4%nat -> length y4 = 4%nat -> length ch6 = 6%nat ->
+  ref_dhcp_opts (S (length area)) area = Some em -> after_end (S (length area)) area = Some pad ->
+  ref_dhcp (dhcp_fixed_of op hl x4 fl c4 y4 ch6 ++ area) =
+  Some {| rd_op := op; rd_htype := 1; rd_hlen := hl; rd_hops := 0; rd_xid := x4; rd_secs := 0;
+          rd_flags := 256 * fl; rd_ciaddr := c4; rd_yiaddr := y4; rd_siaddr := [0;0;0;0]; rd_giaddr := [0;0;0;0];
+          rd_chaddr := ch6 ++ repeat 0 10; rd_sname := repeat 0 64; rd_file := repeat 0 128;
+          rd_options := em; rd_pad := pad |}.
+Proof.
+  intros Hx Hc Hy Hch Ho Ha.
+  do 4 (destr_list x4 Hx). destruct x4; [|discriminate].
+  do 4 (destr_list c4 Hc). destruct c4; [|discriminate].
+  do 4 (destr_list y4 Hy). destruct y4; [|discriminate].
+  do 6 (destr_list ch6 Hch). destruct ch6; [|discriminate].
+  unfold dhcp_fixed_of, COOKIE. cbn [repeat app].
+  unfold ref_dhcp, take, drop, w16. cbn [firstn skipn length Nat.ltb Nat.leb Nat.add].
+  rewrite Ho, Ha. 
+  replace (256 * 0 + 0) with 0 by reflexivity. replace (256 * fl + 0) with (256 * fl) by lia.
+  reflexivity.
+Qed.
+
+Ltac ev_hook ::= rewrite ?be16_hi_lo by (first [assumption | reflexivity]).
+
+Lemma dhcp_getters_of_pieces op hl x4 fl c4 y4 ch6 rest L :
+  length x4 = 4%nat -> length c4 = 4%nat -> length y4 = 4%nat -> length ch6 = 6%nat -> (240 <= L)%nat ->
+  let p := mkSlice (dhcp_fixed_of op hl x4 fl c4 y4 ch6 ++ rest) L in
+  dhcp_opcode p = Ok op /\ dhcp_htype p = Ok 1 /\ dhcp_hlen p = Ok hl /\ dhcp_hops p = Ok 0 /\
+  dhcp_xid p = Ok x4 /\ dhcp_secs p = Ok 0 /\ dhcp_flags p = Ok (256 * fl) /\
+  dhcp_ciaddr p = Ok c4 /\ dhcp_yiaddr p = Ok y4 /\ dhcp_siaddr p = Ok [0;0;0;0] /\ dhcp_giaddr p = Ok [0;0;0;0] /\
+  dhcp_chaddr p = Ok ch6 /\ dhcp_cookie p = Ok COOKIE.
+Proof.
+  intros Hx Hc Hy Hch HL p. subst p.
+  do 4 (destr_list x4 Hx). destruct x4; [|discriminate].
+  do 4 (destr_list c4 Hc). destruct c4; [|discriminate].
+  do 4 (destr_list y4 Hy). destruct y4; [|discriminate].
+  do 6 (destr_list ch6 Hch). destruct ch6; [|discriminate].
+  unfold dhcp_fixed_of, COOKIE. cbn [repeat app].
+  unfold dhcp_opcode, dhcp_htype, dhcp_hlen, dhcp_hops, dhcp_xid, dhcp_secs, dhcp_flags, dhcp_ciaddr, dhcp_yiaddr,
+    dhcp_siaddr, dhcp_giaddr, dhcp_chaddr, dhcp_cookie, idx, be16_at, sl, cap.
+  repeat split; run; try reflexivity.
+  unfold be16. f_equal. lia.
+Qed.
+
+Definition dhcp_x4 (old : bytes) (xid : option bytes) : bytes := match xid with Some x => x | None => sub old 4 4 end.
+Definition dhcp_c4 (old ci : bytes) (off : nat) : bytes := if is4 ci then ci else sub old off 4.
+Definition dhcp_ch6 (old : bytes) (chaddr : option bytes) : bytes := match chaddr with Some m => m | None => sub old 28 6 end.
+Definition dhcp_hl (chaddr : option bytes) : N := match chaddr with Some m => u8 (N.of_nat (length m)) | None => 6 end.
+
+Lemma dhcp_hdr_pieces old opcode chaddr ci yi xid bc :
+  dhcp_hdr old opcode chaddr ci yi xid bc =
+  dhcp_fixed_of opcode (dhcp_hl chaddr) (dhcp_x4 old xid) (if bc then 128 else 0) (dhcp_c4 old ci 12) (dhcp_c4 old yi 16)
+                (dhcp_ch6 old chaddr).
+Proof. reflexivity. Qed.
+
+(* EncodeDHCP4: the fixed fields as the RFC 2131 reference decoder and the library getters see them.
+   xid / chaddr = nil and a non-IPv4 ciaddr / yiaddr keep what the buffer held (documented). *)
+Theorem dhcp4_fixed_rt b opcode mt chaddr ci yi xid bc options order perm :
+  (300 <= cap b)%nat ->
+  match chaddr with Some m => length m = 6%nat | None => True end ->
+  match xid with Some x => length x = 4%nat | None => True end ->
+  let o' := set_opt 53 [mt] options in
+  nodup options -> opts_ok o' -> (241 + osize o' <= cap b)%nat ->
+  let em := emission o' order perm in
+  let old := arr b in
+  exists p,
+    encode_dhcp4 b opcode mt chaddr ci yi xid bc options order perm = Ok p /\
+    ref_dhcp (view p) =
+      Some {| rd_op := opcode; rd_htype := 1; rd_hlen := 6; rd_hops := 0; rd_xid := dhcp_x4 old xid; rd_secs := 0;
+              rd_flags := if bc then 32768 else 0;
+              rd_ciaddr := dhcp_c4 old ci 12; rd_yiaddr := dhcp_c4 old yi 16;
+              rd_siaddr := [0;0;0;0]; rd_giaddr := [0;0;0;0];
+              rd_chaddr := dhcp_ch6 old chaddr ++ repeat 0 10; rd_sname := repeat 0 64; rd_file := repeat 0 128;
+              rd_options := em; rd_pad := repeat 0 (300 - (241 + osize em)) |} /\
+    dhcp_opcode p = Ok opcode /\ dhcp_htype p = Ok 1 /\ dhcp_hlen p = Ok 6 /\ dhcp_hops p = Ok 0 /\
+    dhcp_xid p = Ok (dhcp_x4 old xid) /\ dhcp_secs p = Ok 0 /\ dhcp_flags p = Ok (if bc then 32768 else 0) /\
+    dhcp_ciaddr p = Ok (dhcp_c4 old ci 12) /\ dhcp_yiaddr p = Ok (dhcp_c4 old yi 16) /\
+    dhcp_siaddr p = Ok [0;0;0;0] /\ dhcp_giaddr p = Ok [0;0;0;0] /\
+    dhcp_chaddr p = Ok (dhcp_ch6 old chaddr) /\ dhcp_cookie p = Ok COOKIE.
+Proof.
+  intros Hc Hch Hx o' Hn Hok Hfit em old.
+  destruct (dhcp4_rt b opcode mt chaddr ci yi xid bc options order perm Hc Hch Hx Hn Hok Hfit)
+    as (p & E & L300 & HL & Hcap & Hskip & Hview & Hopt & _ & _ & _ & Hro & Hae & _).
+  fold o' em in Hview, Hopt, Hro, Hae.
+  exists p. split. { exact E. }
+  assert (Hold : (240 <= length old)%nat) by (unfold old, cap in *; blia).
+  assert (Lx : length (dhcp_x4 old xid) = 4%nat).
+  { unfold dhcp_x4. destruct xid; [assumption|apply sub_length; blia]. }
+  assert (Lc : forall a off, (off + 4 <= 240)%nat -> length (dhcp_c4 old a off) = 4%nat).
+  { intros a off Ho. unfold dhcp_c4. destruct (is4 a) eqn:E4; [apply Nat.eqb_eq; exact E4|apply sub_length; blia]. }
+  assert (Lch : length (dhcp_ch6 old chaddr) = 6%nat).
+  { unfold dhcp_ch6. destruct chaddr; [assumption|apply sub_length; blia]. }
+  assert (Hhl : dhcp_hl chaddr = 6).
+  { unfold dhcp_hl. destruct chaddr as [m|]; [rewrite Hch; reflexivity|reflexivity]. }
+  assert (Hfl : 256 * (if bc then 128 else 0) = if bc then 32768 else 0) by (destruct bc; reflexivity).
+  rewrite dhcp_hdr_pieces in Hview. fold old in Hview. rewrite Hhl in Hview.
+  rewrite Hopt in Hro, Hae.
+  split.
+  { rewrite Hview.
+    rewrite (ref_dhcp_of_pieces opcode 6 _ _ _ _ _ _ em _ Lx (Lc ci 12%nat ltac:(lia)) (Lc yi 16%nat ltac:(lia)) Lch Hro Hae).
+    rewrite Hfl. reflexivity. }
+  (* the slice itself: its storage starts with the same fixed part *)
+  assert (Harr : exists rest, arr p = dhcp_fixed_of opcode 6 (dhcp_x4 old xid) (if bc then 128 else 0)
+                                       (dhcp_c4 old ci 12) (dhcp_c4 old yi 16) (dhcp_ch6 old chaddr) ++ rest).
+  { exists (skipn 240 (arr p)).
+    assert (Hf : firstn 240 (arr p) = dhcp_fixed_of opcode 6 (dhcp_x4 old xid) (if bc then 128 else 0)
+                                       (dhcp_c4 old ci 12) (dhcp_c4 old yi 16) (dhcp_ch6 old chaddr)).
+    { assert (Hfl240 : length (dhcp_fixed_of opcode 6 (dhcp_x4 old xid) (if bc then 128 else 0)
+                                       (dhcp_c4 old ci 12) (dhcp_c4 old yi 16) (dhcp_ch6 old chaddr)) = 240%nat).
+      { unfold dhcp_fixed_of. rewrite !app_length, repeat_length, Lx, Lch, !Lc by lia. reflexivity. }
+      unfold view in Hview.
+      assert (E240 : firstn 240 (firstn (len p) (arr p)) = firstn 240 (arr p)).
+      { rewrite firstn_firstn. f_equal. blia. }
+      rewrite <- E240, Hview. apply firstn_app_len. exact Hfl240. }
+    rewrite <- Hf. symmetry. apply firstn_skipn. }
+  destruct Harr as (rest & Harr).
+  pose proof (dhcp_getters_of_pieces opcode 6 (dhcp_x4 old xid) (if bc then 128 else 0) (dhcp_c4 old ci 12)
+                (dhcp_c4 old yi 16) (dhcp_ch6 old chaddr) rest (len p) Lx (Lc ci 12%nat ltac:(lia))
+                (Lc yi 16%nat ltac:(lia)) Lch ltac:(blia)) as G.
+  cbn zeta in G. rewrite <- Harr in G. rewrite Hfl in G.
+  destruct p as [pa pl]. cbn [arr len] in *. exact G.
+Qed.
